@@ -790,8 +790,8 @@ func (*c06) Oracle(c Case, impl []string) []Failure {
 			// the backend's reader failed after the response had started: what was sent must be a prefix
 			// of the content and nothing else (the connection is then broken off, which the recorder
 			// cannot show)
-			if !bytes.HasPrefix([]byte("0123456789"), s.body) {
-				fail("srv-garbage-after-partial-body:"+kindNames[s.parsed.Kind], "server_error_shape", "a prefix of the content, nothing appended", string(s.body))
+			if !bytes.Contains([]byte("0123456789"), s.body) { // a piece of the content (of the requested range), nothing else
+				fail("srv-garbage-after-partial-body:"+kindNames[s.parsed.Kind], "server_error_shape", "a piece of the content, nothing appended", string(s.body))
 			}
 			continue
 		}
